@@ -46,7 +46,7 @@ def run(ctx):
             st = [tk for tk in T.stream_tokens(main) if tk.kind == "interp"]
             ctx.ob("C08.H.declarations-source", f.key, "#declarations", bool(st) and "ExtractAttribute::local_declarations(self)" in (st[0].expr or ""), "first interpolation comes from %s" % (st[0].expr if st else None))
             # selection match
-            m = re.search(r"for __attr in ⟨proc_macro2::TokenStream⟩ \{ match (.*?) \. as_str \( \) \{ \| ⟨quote::__private::RepInterp<alloc::string::String>⟩ => \{", txt)
+            m = re.search(r"for __attr in ⟨proc_macro2::TokenStream⟩ \{ match (.*?) \. as_str \( \) \{ \| ⟨quote::__private::RepInterp<str>⟩ => \{", txt)
             ctx.ob("C08.H.selection-match", f.key, "match <attr path string> { #(#attr_names)|* => {…} #forward_unhandled }", bool(m), txt[:260])
             scrut = m.group(1) if m else ""
             ctx.ob("C08.H.scrutinee-is-attr-path", f.key, "scrutinee", "__attr . path ( )" in scrut, "scrutinee: %s" % scrut)
@@ -93,7 +93,7 @@ def run(ctx):
             elif "RepInterp" in txt:
                 seen["only"] += 1
                 ok = all(ctx._sat(d, r"discr\(.*self\.0\.filter.*\)=Only$") for d in pcs)
-                want = "| ⟨quote::__private::RepInterp<alloc::string::String>⟩ => __fwd_attrs . push ( __attr . clone ( ) ) , _ => continue ,"
+                want = "| ⟨quote::__private::RepInterp<str>⟩ => __fwd_attrs . push ( __attr . clone ( ) ) , _ => continue ,"
                 ctx.ob("C08.G.forward-only-listed", f.key, "`#(#names)|* => push, _ => continue`", ok and txt == want, "%s under %s" % (txt, [sorted(d) for d in pcs]))
         ctx.ob("C08.G.forward-arms-complete", f.key, "three arm shapes", seen == {"none": 1, "all": 1, "only": 1}, str(seen))
         # the listed names are the filter's own strings
